@@ -35,6 +35,7 @@ from vtlengine.Exceptions import RunTimeError, SemanticError
 from vtlengine.files.output._time_period_representation import TimePeriodRepresentation
 from vtlengine.Model import Dataset, Scalar
 from vtlengine.Utils._number_config import get_effective_numeric_digits
+from vtlengine import _verif
 
 
 def _contains_time_components(datasets: Dict[str, Dataset]) -> bool:
@@ -309,6 +310,7 @@ def load_scheduled_datasets(
     for ds_name in ds_analysis.insertion[statement_num]:
         if ds_name not in input_datasets:
             continue
+        _verif.fault_point("load", ds_name)
 
         if path_dict and ds_name in path_dict:
             # Load from CSV using DuckDB's native read_csv
@@ -329,6 +331,7 @@ def load_scheduled_datasets(
                 dataset_name=ds_name,
                 file_path=None,
             )
+        _verif.event("load", name=ds_name, tables=_verif.tables(conn))
 
 
 def cleanup_scheduled_datasets(
@@ -368,6 +371,7 @@ def cleanup_scheduled_datasets(
         if ds_name in global_inputs:
             # Drop global inputs without saving
             conn.execute(f'DROP TABLE IF EXISTS "{ds_name}"')
+            _verif.event("release", name=ds_name, kind="input", tables=_verif.tables(conn))
         elif not return_only_persistent or ds_name in persistent_datasets:
             results[ds_name] = fetch_result(
                 conn=conn,
@@ -379,9 +383,11 @@ def cleanup_scheduled_datasets(
                 output_format=output_format,
             )
             conn.execute(f'DROP TABLE IF EXISTS "{ds_name}"')
+            _verif.event("release", name=ds_name, kind="result", tables=_verif.tables(conn))
         else:
             # Drop non-persistent intermediate results
             conn.execute(f'DROP TABLE IF EXISTS "{ds_name}"')
+            _verif.event("release", name=ds_name, kind="intermediate", tables=_verif.tables(conn))
 
 
 def fetch_result(
@@ -408,6 +414,8 @@ def fetch_result(
     Returns:
         Dataset or Scalar with result data
     """
+    _verif.fault_point("fetch", result_name)
+    _verif.event("fetch", name=result_name, tables=_verif.tables(conn))
     # Apply time period representation before saving/fetching
     apply_time_period_representation(
         conn, result_name, output_datasets, output_scalars, representation
@@ -488,6 +496,13 @@ def execute_queries(
         Dict of result_name -> Dataset or Scalar
     """
     results: Dict[str, Union[Dataset, Scalar]] = {}
+    _verif.event(
+        "exec_start",
+        statements=[q[0] for q in queries],
+        persistent=[q[0] for q in queries if q[2]],
+        return_only_persistent=return_only_persistent,
+        to_files=output_folder is not None,
+    )
     representation = TimePeriodRepresentation.check_value(time_period_output_format)
 
     # Install only the closure of VTL macros actually referenced by the
@@ -522,8 +537,10 @@ def execute_queries(
         )
 
         # Execute query and create table
+        _verif.fault_point("exec", result_name)
         try:
             conn.execute(f'CREATE TABLE "{result_name}" AS {sql_query}')
+            _verif.event("exec", n=statement_num, name=result_name, tables=_verif.tables(conn))
         except duckdb.Error as e:
             mapped = _map_query_error(e, sql_query)
             if mapped is not e:
@@ -568,6 +585,8 @@ def execute_queries(
     # Save scalars to CSV when output_folder is provided
     if output_folder:
         result_scalars = {k: v for k, v in results.items() if isinstance(v, Scalar)}
+        _verif.fault_point("write", "_scalars")
         save_scalars_duckdb(result_scalars, output_folder)
 
+    _verif.event("exec_end", returned=sorted(results), tables=_verif.tables(conn))
     return results
